@@ -186,6 +186,9 @@ for _k, _t in ADDENDA.items():
     _i = max(_l.rfind(' Does not decide'), _l.rfind(' The merged value itself'))
     TEXTS[_k]['level'] = (_l[:_i] + ' ' + _t + _l[_i:]) if _i > 0 else (_l + ' ' + _t)
 ADDENDA_END = {
+    'C12': "NUM4: compare_double over all pairs of operand classes of IEEE doubles - NaN equals nothing, infinity equals neither a finite number nor the other infinity, zero equals zero.",
+    'C04': "NUM4: the comparison print_number relies on to accept the short rendering does not take an infinite read-back for equal to a finite number (the DBL_MAX case named in the property).",
+    'C15': "PTR1: the resolver hands back an element only on paths where the whole pointer text was used (byte-path engine): text that does not begin with '/' designates nothing.",
     'C06': "SHP3: the index, size and key queries answer like the list model on every list of up to five elements / every arrangement of three keys on up to four members (first match, exact and case-folded), writing nothing - a bounded statement.",
     'C01': "OUT9: the decoded string fits the block allocated for it (the scan's escape count, the block size as a linear form over the scan's end and start, what every turn of the decoder writes against what it consumes, the UTF-16 arm over value sets, the terminator) - a count over the whole literal assembled from per-step facts.",
 }
